@@ -10,11 +10,15 @@ import (
 	"encoding/asn1"
 	"encoding/pem"
 	"fmt"
+	"math/big"
 	"os"
 	"os/exec"
 	"path/filepath"
 	"sort"
+	"strings"
 	"time"
+
+	"crypto/x509/pkix"
 )
 
 // OpenSSL-produced blobs (only when the CLI exists; the evidence says which legs ran)
@@ -35,23 +39,37 @@ func opensslSeeds(c *Ctx) []p7Seed {
 	var seeds []p7Seed
 	ran := []string{}
 	type osslCfg struct {
-		bits int
-		args []string
+		bits  int
+		args  []string
+		shape *certShape // nil: the long-named self-signed certificate valid now
 	}
 	var cfgs []osslCfg
 	for _, a := range [][]string{
 		{"smime"}, {"smime", "-nodetach"}, {"smime", "-nosmimecap"}, {"smime", "-nocerts"}, {"smime", "-nodetach", "-nosmimecap"},
 		{"cms"}, {"cms", "-nodetach"}, {"cms", "-nosmimecap"}, {"cms", "-cades"}, {"cms", "-nodetach", "-nocerts"},
 	} {
-		cfgs = append(cfgs, osslCfg{2048, a})
+		cfgs = append(cfgs, osslCfg{2048, a, nil})
 	}
 	// the signer's RSA key need not have a modulus of a whole number of bytes
 	for _, bits := range oddModulusBits(c) {
-		cfgs = append(cfgs, osslCfg{bits, []string{"smime"}}, osslCfg{bits, []string{"cms", "-nodetach"}})
+		cfgs = append(cfgs, osslCfg{bits, []string{"smime"}, nil}, osslCfg{bits, []string{"cms", "-nodetach"}, nil})
+	}
+	// signer certificates that are expired, not yet valid or without a validity period when OpenSSL signs
+	// (it puts the current time into signingTime and does not look at the signer's validity period)
+	for i, vs := range validityShapes(time.Now(), true) {
+		vs := vs
+		if i == 0 || (!c.Thorough && i%2 == 0 && i != 8) {
+			continue
+		}
+		cfgs = append(cfgs, osslCfg{2048, [][]string{{"smime"}, {"cms", "-nodetach"}, {"cms"}}[i%3], &vs})
 	}
 	for _, oc := range cfgs {
 		cfg := oc.args
 		k0 := poolKey(c, oc.bits, 0)
+		sh := sh
+		if oc.shape != nil {
+			sh = *oc.shape
+		}
 		right, twin, other := makeRSACert(k0, sh), makeRSACert(k1, sh), makeRSACert(k1, certShapes(c)[0])
 		os.WriteFile(filepath.Join(dir, "key.pem"), pem.EncodeToMemory(&pem.Block{Type: "RSA PRIVATE KEY", Bytes: x509.MarshalPKCS1PrivateKey(k0)}), 0o600)
 		os.WriteFile(filepath.Join(dir, "cert.pem"), pem.EncodeToMemory(&pem.Block{Type: "CERTIFICATE", Bytes: right.Raw}), 0o644)
@@ -71,6 +89,9 @@ func opensslSeeds(c *Ctx) []p7Seed {
 		name := "openssl/" + fmt.Sprint(cfg)
 		if oc.bits != 2048 {
 			name += fmt.Sprintf("/rsa%d", oc.bits)
+		}
+		if oc.shape != nil {
+			name += "/" + strings.SplitN(oc.shape.desc, "/", 3)[1]
 		}
 		ran = append(ran, name)
 		seeds = append(seeds, p7Seed{name, b, right, twin, other, true})
@@ -119,6 +140,72 @@ func cmsShapedSeeds(c *Ctx) []p7Seed {
 	return seeds
 }
 
+// validityShapes: signer certificates whose validity period stands in every relation to the signing
+// time t of the signature: covering it, ended before it (by a year, by a second), starting after it (in
+// a second, in a year), starting or ending exactly at it, a single instant equal to it, and no validity
+// period at all (both dates the zero time, as in certificates made by this library and sbctl). The
+// property asks for verification against the signer's certificate - the key -; UEFI does not look at
+// validity periods, and OpenSSL signs with an expired or not yet valid certificate without complaint.
+func validityShapes(t time.Time, self bool) []certShape {
+	t = t.UTC().Truncate(time.Second)
+	y := 365 * 24 * time.Hour
+	var zero time.Time
+	var out []certShape
+	for i, v := range []struct {
+		desc   string
+		nb, na time.Time
+	}{
+		{"covers", t.Add(-y), t.Add(y)},
+		{"expired-a-year-before", t.Add(-2 * y), t.Add(-y)},
+		{"expired-a-second-before", t.Add(-y), t.Add(-time.Second)},
+		{"valid-from-a-second-after", t.Add(time.Second), t.Add(y)},
+		{"valid-from-a-year-after", t.Add(y), t.Add(2 * y)},
+		{"ends-at-signing-time", t.Add(-y), t},
+		{"starts-at-signing-time", t, t.Add(y)},
+		{"instant-at-signing-time", t, t},
+		{"no-validity-period", zero, zero},
+		{"no-not-before", zero, t.Add(-y)},
+	} {
+		sh := certShape{issuer: pkix.Name{CommonName: "validity " + v.desc}, serial: big.NewInt(int64(8000 + i)),
+			desc: fmt.Sprintf("validity/%s/%d/self=%v", v.desc, t.Unix(), self), validity: true, notBefore: v.nb, notAfter: v.na}
+		if !self {
+			sh.issuer = pkix.Name{CommonName: "Validity Root CA"}
+			sh.subject = &pkix.Name{CommonName: "leaf " + v.desc}
+		}
+		out = append(out, sh)
+	}
+	return out
+}
+
+// signatures whose signed signingTime lies inside, outside and on the border of the signer
+// certificate's validity period (signing now, in the past and in the future)
+func validitySeeds(c *Ctx) []p7Seed {
+	k0, k1 := poolKey(c, 2048, 0), poolKey(c, 2048, 1)
+	var seeds []p7Seed
+	now := time.Now()
+	for ti, t := range []time.Time{now, time.Date(2011, 6, 1, 12, 0, 0, 0, time.UTC), time.Date(2049, 12, 31, 23, 59, 59, 0, time.UTC)} {
+		for si, sh := range validityShapes(t, ti != 1) {
+			if !c.Thorough && ti > 0 && si%3 != ti {
+				continue // quick tier: every relation for a signature made now, a third of them for each other signing time
+			}
+			right, twin, other := makeRSACert(k0, sh), makeRSACert(k1, sh), makeRSACert(k1, certShapes(c)[0])
+			attached := si%2 == 0
+			if b := buildCMSAt(k0, right, []byte("harness-built CMS content"), attached, si%3 == 0, si%4 != 3, t); b != nil {
+				seeds = append(seeds, p7Seed{fmt.Sprintf("cms-shaped/%s/signed=%s", sh.desc, t.UTC().Format("2006-01-02")), b, right, twin, other, true})
+			}
+		}
+	}
+	// the default certificates of the harness (valid 2023..2033) with a signing time before and after that period
+	sh := certShapes(c)[2]
+	right, twin, other := makeRSACert(k0, sh), makeRSACert(k1, sh), makeRSACert(k1, certShapes(c)[0])
+	for _, t := range []time.Time{right.NotBefore.Add(-time.Second), right.NotBefore, right.NotAfter, right.NotAfter.Add(time.Second), time.Date(1999, 1, 1, 0, 0, 0, 0, time.UTC)} {
+		if b := buildCMSAt(k0, right, []byte("harness-built CMS content"), false, true, true, t); b != nil {
+			seeds = append(seeds, p7Seed{fmt.Sprintf("cms-shaped/%s/signed=%d", sh.desc, t.Unix()), b, right, twin, other, true})
+		}
+	}
+	return seeds
+}
+
 func mustMarshal(v interface{}, params string) []byte {
 	b, err := asn1.MarshalWithParams(v, params)
 	if err != nil {
@@ -128,6 +215,11 @@ func mustMarshal(v interface{}, params string) []byte {
 }
 
 func buildCMS(key *rsa.PrivateKey, cert *x509.Certificate, content []byte, attached, smimecap, withCerts bool) []byte {
+	return buildCMSAt(key, cert, content, attached, smimecap, withCerts, time.Now())
+}
+
+// buildCMSAt: the same with a given signingTime attribute (UTCTime, so a year in 1950..2049)
+func buildCMSAt(key *rsa.PrivateKey, cert *x509.Certificate, content []byte, attached, smimecap, withCerts bool, signingTime time.Time) []byte {
 	oidData := asn1.ObjectIdentifier{1, 2, 840, 113549, 1, 7, 1}
 	oidSD := asn1.ObjectIdentifier{1, 2, 840, 113549, 1, 7, 2}
 	oidSHA := asn1.ObjectIdentifier{2, 16, 840, 1, 101, 3, 4, 2, 1}
@@ -138,7 +230,7 @@ func buildCMS(key *rsa.PrivateKey, cert *x509.Certificate, content []byte, attac
 	}
 	attrs := [][]byte{
 		mustMarshal(cmsAttr{asn1.ObjectIdentifier{1, 2, 840, 113549, 1, 9, 3}, set(mustMarshal(oidData, ""))}, ""),
-		mustMarshal(cmsAttr{asn1.ObjectIdentifier{1, 2, 840, 113549, 1, 9, 5}, set(mustMarshal(time.Now().UTC().Truncate(time.Second), "utc"))}, ""),
+		mustMarshal(cmsAttr{asn1.ObjectIdentifier{1, 2, 840, 113549, 1, 9, 5}, set(mustMarshal(signingTime.UTC().Truncate(time.Second), "utc"))}, ""),
 		mustMarshal(cmsAttr{asn1.ObjectIdentifier{1, 2, 840, 113549, 1, 9, 4}, set(mustMarshal(md[:], ""))}, ""),
 	}
 	if smimecap {
@@ -226,6 +318,7 @@ func c16Gen(c *Ctx) {
 	var seeds []p7Seed
 	seeds = append(seeds, opensslSeeds(c)...)
 	seeds = append(seeds, cmsShapedSeeds(c)...)
+	seeds = append(seeds, validitySeeds(c)...)
 	all := p7Seeds(c, false)
 	for _, s := range all {
 		if len(s.name) > 8 && s.name[:8] == "fixture/" {
@@ -252,7 +345,7 @@ func c16Gen(c *Ctx) {
 
 func init() {
 	register("C16", &PropDef{
-		Rule:   "OpenSSL smime/cms x {detached, -nodetach} x {-nosmimecap} x {-nocerts} x {-cades} produced at check time when the CLI exists; harness-built CMS SignedData in OpenSSL's shape (DER-sorted attribute SET, S/MIME capabilities on/off, attached/detached, certificates on/off, signer self-signed or issued by a CA, the signer's certificate itself signed with SHA-256, SHA-384 or SHA-512, a hand-encoded multi-valued-RDN name; signer keys of 2048 bits and - OpenSSL smime / cms -nodetach and harness-built - of 2047 and 2049 bits [thorough: also 3001, 4095], i.e. RSA moduli that are not a whole number of bytes long); the sbsign / sbvarsign artefacts of the repository. Each is parsed and verified against the signer's certificate, a twin (same issuer+serial, other key) and an unrelated certificate, and its signed attributes are re-encoded and compared with the transmitted bytes. Every case is non-trivial; distinct = distinct (blob, certificate).",
+		Rule:   "OpenSSL smime/cms x {detached, -nodetach} x {-nosmimecap} x {-nocerts} x {-cades} produced at check time when the CLI exists; harness-built CMS SignedData in OpenSSL's shape (DER-sorted attribute SET, S/MIME capabilities on/off, attached/detached, certificates on/off, signer self-signed or issued by a CA, the signer's certificate itself signed with SHA-256, SHA-384 or SHA-512, a hand-encoded multi-valued-RDN name; signer keys of 2048 bits and - OpenSSL smime / cms -nodetach and harness-built - of 2047 and 2049 bits [thorough: also 3001, 4095], i.e. RSA moduli that are not a whole number of bytes long); signer certificates whose validity period stands in every relation to the signed signingTime (covering it, expired a year / a second before it, valid only from a second / a year after it, ending or starting exactly at it, a single instant equal to it, no validity period at all = both dates the zero time, only NotBefore zero; self-signed and CA-issued) for signatures made now [all relations], in 2011 and in 2049 [quick: a third of the relations each], the default 2023..2033 certificate with a signingTime one second before / exactly at / one second after either end and in 1999, and OpenSSL smime / cms signing now with such expired / not yet valid / period-less certificates - validity periods play no part in the property: the signature must verify against the signer's certificate and be rejected for the twin and the unrelated one; the sbsign / sbvarsign artefacts of the repository. Each is parsed and verified against the signer's certificate, a twin (same issuer+serial, other key) and an unrelated certificate, and its signed attributes are re-encoded and compared with the transmitted bytes. Every case is non-trivial; distinct = distinct (blob, certificate).",
 		Assume: []string{"which OpenSSL configurations ran is recorded in notes.openssl; nothing depends on the CLI being present"},
 		Eval:   c16Eval, Gen: c16Gen,
 	})
